@@ -197,6 +197,8 @@ class Sched:
                         others = [u % n for u in range(cur + 1, cur + n) if runnable(u % n)]
                         k = 0 if t is None else t
                         if not (0 <= k < len(others)):
+                            if getattr(self, "lenient", False):
+                                continue  # sampled schedules: a slot that cannot be realised is skipped
                             raise InfeasibleSchedule((s, t))
                         t = others[k]
                         if t != cur:
@@ -361,6 +363,8 @@ class RealThreads:
                         others = [u % n for u in range(cur + 1, cur + n) if runnable(u % n)]
                         k = 0 if t is None else t
                         if not (0 <= k < len(others)):
+                            if getattr(self, "lenient", False):
+                                continue  # sampled schedules: a slot that cannot be realised is skipped
                             raise InfeasibleSchedule((s, t))
                         t = others[k]
                         if t != cur:
